@@ -5,6 +5,7 @@ import re
 DTYPE = {8: "char", 16: "short", 32: "int", 64: "long long"}
 ZERO = {8: "(char) 0", 16: "(short) 0", 32: "0", 64: "0LL"}
 ONE = {8: "(char) 1", 16: "(short) 1", 32: "1", 64: "1LL"}
+UDTYPE = {8: "unsigned char", 16: "unsigned short", 32: "unsigned int", 64: "unsigned long long"}
 
 
 class ParseError(Exception):
@@ -254,8 +255,7 @@ for(size_t i = 0; i < len; ++i) {
 for(size_t d = 0; d < <IN>; ++d) {
 <T> res = <Z>;
 for(size_t b = 0; b < <W>; ++b) {
-res <<= 1;
-res += !!(inp[i * <IN> * <W> + (<W> - b - 1) * <IN> + d]);
+res = (<T>) (((<UT>) res << 1) | !!(inp[i * <IN> * <W> + (<W> - b - 1) * <IN> + d]));
 }
 inp_temp[d] = res;
 }
@@ -279,7 +279,7 @@ carry = carry & out_temp_o_d;
 }
 // Unpack the result bits
 for(size_t b = 0; b < <W>; ++b) {
-const <T> bit_mask = <ONE> << b;
+const <T> bit_mask = (<T>) ((<UT>) 1 << b);
 int res = 0;
 for(size_t d = 0; d < <WD>; ++d) {
 res <<= 1;
@@ -307,7 +307,7 @@ def parse_wrapper(rest, W):
     if len(got) != len(tmpl):
         raise ParseError(f"wrapper has {len(got)} lines, modelled structure has {len(tmpl)}")
     holes = {}
-    fixed = {"T": DTYPE[W], "Z": ZERO[W], "ONE": ONE[W], "W": str(W)}
+    fixed = {"T": DTYPE[W], "UT": UDTYPE[W], "Z": ZERO[W], "ONE": ONE[W], "W": str(W)}
     for g, t in zip(got, tmpl):
         parts = re.split(r"<([A-Z]+)>", t)
         rx = ""
